@@ -60,9 +60,8 @@ def base_values():
     return sorted(set(out))
 
 
-def random_values(rng, count, maxbits):
+def random_values(rng, count, maxbits, sizes=(65, 96, 130, 256, 511, 1000, 2000)):
     out = []
-    sizes = [65, 96, 130, 256, 511, 1000, 2000]
     for i in range(count):
         bits = sizes[i % len(sizes)] if i < len(sizes) else rng.randint(33, maxbits)
         bits = min(bits, maxbits)
@@ -83,7 +82,7 @@ def quick_pool(rng):
             2 ** 31 - 1, 2 ** 31, -2 ** 31, -2 ** 31 - 1, 2 ** 32, -2 ** 32, 2 ** 32 + 1,
             2 ** 62, -2 ** 62, 2 ** 63 - 1, 2 ** 63, 2 ** 63 + 1, -2 ** 63 + 1, -2 ** 63, -2 ** 63 - 1,
             2 ** 64 - 1, 2 ** 64, 2 ** 64 + 1, -2 ** 64, -2 ** 64 - 1]
-    return core + random_values(rng, 5, 2000)[:9]
+    return core + random_values(rng, 4, 2000, sizes=(65, 130, 700, 2000))
 
 
 # ----------------------------------------------------------------------------- rendering operands in the language
@@ -504,6 +503,20 @@ def run_c06(cases, timeout=30.0):
     return common.run_harness(common.harness_bin("c06"), cases, timeout=timeout)
 
 
+def run_three(runner, dcases, pcases, mlines, timeout=30.0):
+    """the NInt-level cases, the language-level cases and the model lines, concurrently"""
+    import threading
+    out = {}
+    def w(k, f):
+        out[k] = f()
+    ts = [threading.Thread(target=w, args=("d", lambda: run_c06(dcases, timeout))),
+          threading.Thread(target=w, args=("p", lambda: run_c06(pcases, timeout))),
+          threading.Thread(target=w, args=("m", lambda: common.run_model(runner, mlines, shards=min(common.NPROC, max(1, len(mlines) // 20))) if runner else [None] * len(mlines)))]
+    [t.start() for t in ts]
+    [t.join() for t in ts]
+    return out["d"], out["p"], out["m"]
+
+
 def parse_model_line(line):
     out = {}
     for kv in line.split(";"):
@@ -532,7 +545,8 @@ class Tally:
         """impl/model/oracle are value-level observations; oracle 'any' = no opinion; model None = not modelled"""
         self.evals += 1
         self.by_op[op] = self.by_op.get(op, 0) + 1
-        kind = impl if isinstance(impl, str) else "value"
+        kind = impl if isinstance(impl, str) and impl in ("err", "panic", "nan", "none", "hang", "abort", "parse", "b0", "b1", "lt", "eq", "gt") else \
+            ("text" if isinstance(impl, str) else "value")
         self.outcomes[kind] = self.outcomes.get(kind, 0) + 1
         if nontrivial:
             self.nontrivial.add((op.split("/")[0], args))
@@ -593,9 +607,7 @@ def do_pairs(ctx, runner, T, pairs, prod_ok):
         # Coq's Z.pow iterates |b| times: the model evaluates `^` only for |b| <= 4096 (larger exponents, reached for |a| <= 1, go to the oracle only)
         mlines.append(model_pair_line(a, ra, b, rb, pw and abs(b) <= 4096, sh or b < 0))
         meta.append((a, ra, b, rb, pa, pb, keys))
-    dres = run_c06(dcases)
-    pres = run_c06(pcases)
-    mres = common.run_model(runner, mlines) if runner else [None] * len(mlines)
+    dres, pres, mres = run_three(runner, dcases, pcases, mlines)
     for (a, ra, b, rb, pa, pb, keys), dr, pr, ml, dc, pc in zip(meta, dres, pres, mres, dcases, pcases):
         m = parse_model_line(ml) if ml is not None else None
         nt = nontriv((a, ra), (b, rb))
@@ -652,7 +664,7 @@ def do_unary(ctx, runner, T, ops, prod_ok, bound):
     for (a, ra) in ops:
         ip, fz = prime_testable(a, bound)
         pows = [0, 1, 2, 3, 5, 17] if a.bit_length() <= 400 else [0, 1, 2]
-        dcases.append({"mode": "un", "a": str(a), "ra": ra, "prime": bool(ip and fz), "pows": pows})
+        dcases.append({"mode": "un", "a": str(a), "ra": ra, "prime": bool(ip), "factorize": bool(fz), "pows": pows})
         prods = prod_ok.get((a, ra)) or []
         stmts, keys = [], []
         if prods:
@@ -668,11 +680,9 @@ def do_unary(ctx, runner, T, ops, prod_ok, bound):
                 stmts.append("factorize(a)")
                 keys.append(("factorize", "factorize(a)", "factorize"))
         pcases.append({"mode": "prog", "stmts": stmts})
-        mlines.append(f"un {ra} {a} {int(ip or fz)} {bound} " + ",".join(map(str, pows)))
+        mlines.append(f"un {ra} {a} {int(ip)} {int(fz)} {bound} " + ",".join(map(str, pows)))
         meta.append((a, ra, keys, ip, fz))
-    dres = run_c06(dcases, timeout=60.0)
-    pres = run_c06(pcases, timeout=60.0)
-    mres = common.run_model(runner, mlines) if runner else [None] * len(mlines)
+    dres, pres, mres = run_three(runner, dcases, pcases, mlines, timeout=60.0)
     for (a, ra, keys, ip, fz), dr, pr, ml, dc, pc in zip(meta, dres, pres, mres, dcases, pcases):
         m = parse_model_line(ml) if ml is not None else None
         nt = nontriv((a, ra))
@@ -751,7 +761,8 @@ def prime_sweep(ctx, runner, T, lo, hi, bound):
         cases.append({"mode": "prog", "fuel": 50_000_000, "stmts": [
             f"xs := {ls}", "xs map is_prime", "xs map (\\x -> is_prime(x // 1))", "xs map factorize", "xs map (\\x -> factorize(x // 1))"]})
     res = run_c06(cases, timeout=120.0)
-    mlines = [f"un S {v} 1 {bound} -" for v in vals] + [f"un B {v} 1 {bound} -" for v in vals]
+    sweep_fuel = 2000   # the loops run sqrt(v)/6 times
+    mlines = [f"un S {v} 1 1 {sweep_fuel} -" for v in vals] + [f"un B {v} 1 1 {sweep_fuel} -" for v in vals]
     mres = common.run_model(runner, mlines) if runner else [None] * len(mlines)
     mS = [parse_model_line(x) if x else None for x in mres[:len(vals)]]
     mB = [parse_model_line(x) if x else None for x in mres[len(vals):]]
@@ -797,7 +808,10 @@ def run(ctx):
     values = list(dict.fromkeys(values))
     ops = operands(values)
     bound = ctx.n(60_000, 1_000_000)
+    import time
+    t0 = time.time()
     prod_ok, prod_stats = check_producers(ctx, T, ops)
+    common.log(f"[C06] producers checked in {time.time() - t0:.1f}s")
     pairs = [(x, y) for x in ops for y in ops]
     extra = []
     if not ctx.quick():
@@ -805,15 +819,21 @@ def run(ctx):
         for _ in range(20000):
             x, y = rng.choice(big + values), rng.choice(big + values)
             extra.append(((x, rng.choice("SB") if in_i64(x) else "B"), (y, rng.choice("SB") if in_i64(y) else "B")))
+    t0 = time.time()
     do_pairs(ctx, runner, T, pairs + extra, prod_ok)
+    common.log(f"[C06] {len(pairs) + len(extra)} pairs in {time.time() - t0:.1f}s")
     # unary: pool + semiprimes / primes whose trial division is short
     un_ops = list(ops)
     for v in (2 ** 31 - 1, 2 ** 32 + 1, 1_000_003, 999_983 * 1_000_003 if not ctx.quick() else 1009 * 1013, 2 ** 61 - 1,
               (2 ** 64 + 13) * 3, 59_999 * 60_013 if ctx.quick() else 999_983 * 999_979, -(2 ** 40) * 3 ** 5 * 1013, 2 ** 200 * 3 ** 50):
         un_ops += [(v, "B")] + ([(v, "S")] if in_i64(v) else [])
     un_ops = list(dict.fromkeys(un_ops))
+    t0 = time.time()
     do_unary(ctx, runner, T, un_ops, prod_ok, bound)
+    common.log(f"[C06] {len(un_ops)} unary operands in {time.time() - t0:.1f}s")
+    t0 = time.time()
     prime_sweep(ctx, runner, T, -20, ctx.n(3000, 100_000), bound)
+    common.log(f"[C06] prime sweep in {time.time() - t0:.1f}s")
     report(ctx, T)
     ctx.coverage.update({
         "evaluations": T.evals, "distinct_nontrivial": len(T.nontrivial), "exhaustive": False,
